@@ -259,6 +259,9 @@ class ModuleFinder:
                     abs_path = path / choice
                     if abs_path in path_contents:
                         if abs_path.suffix:
+                            if not abs_path.is_file():
+                                # A directory named `name.py` is not a module.
+                                continue
                             stubs = abs_path.with_suffix(".pyi")
                             return Package(real_module_name, abs_path, stubs if stubs.exists() else None)
                         init_module = abs_path / "__init__.py"
